@@ -245,9 +245,13 @@ fn main() {
             let args = parse_args(&argv[2..]);
             ctx::silence_stdout();
             let threads = args.nshards.max(1) as usize;
+            if args.as_gib > 0 {
+                // the processes differ in how much address space they may use as well
+                ctx::set_address_space_limit(args.as_gib << 30);
+            }
             let mut all = vec![];
-            for k in 0..3u64 {
-                let inputs = std::sync::Arc::new(mon::c14::input_set(args.seed, k, 8, 6000));
+            for k in 0..4u64 {
+                let inputs = std::sync::Arc::new(mon::c14::input_set(args.seed, k, 10, 6000));
                 let hs: Vec<_> = (0..threads)
                     .map(|_| {
                         let inputs = inputs.clone();
